@@ -32,7 +32,7 @@ func runCmd(args []string) {
 	repo := fs.String("repo", "/repo", "repository")
 	harness := fs.String("harness", "/verif/harness", "harness dir")
 	workers := fs.Int("j", 8, "workers")
-	solver := fs.String("solver", "z3", "solver")
+	solver := fs.String("solver", "cvc5", "solver")
 	fs.Parse(args)
 	rest := fs.Args()
 	if len(rest) < 2 {
